@@ -37,6 +37,7 @@ type Req struct {
 	Params map[string]interface{} `json:"params"`
 	Neg    string                 `json:"negative,omitempty"` // why an error is expected
 	RawURI interface{}            `json:"raw_uri,omitempty"`  // replaces the uri in renderings that carry one as data
+	Prep   string                 `json:"prepare,omitempty"`  // engine state the negative case needs
 }
 
 type Resp struct {
@@ -351,6 +352,11 @@ func genHistory(g *gen.Gen, n int) []Req {
 			if g.Intn(2) == 0 {
 				p["inherited"] = g.Intn(2) == 0
 			}
+			if g.Intn(4) == 0 {
+				// the take switch of a search: false leaves everything in place, true removes what was found
+				p["take"] = g.Intn(2) == 0
+				delete(p, "inherited") // taking what a parent holds is not an operation of the child
+			}
 		case 6:
 			r.URI = "/loc/facts/rem"
 			p["id"] = id
@@ -447,6 +453,8 @@ func negatives(g *gen.Gen) []Req {
 		Req{URI: "/loc/facts/add", Params: map[string]interface{}{"location": "plain", "fact": ""}, Neg: "the fact parameter is empty"},
 		Req{URI: "/loc/facts/search", Params: map[string]interface{}{"location": "plain", "pattern": ""}, Neg: "the pattern parameter is empty"},
 		Req{URI: "/loc/events/ingest", Params: map[string]interface{}{"location": "plain", "event": ""}, Neg: "the event parameter is empty"},
+		Req{URI: "/loc/facts/take", Prep: "readonly-with-fact", Params: map[string]interface{}{"location": "plain", "pattern": map[string]interface{}{"a": "zzz"}}, Neg: "operation fails: the location is read-only, the matching fact cannot be removed"},
+		Req{URI: "/loc/facts/search", Prep: "readonly-with-fact", Params: map[string]interface{}{"location": "plain", "pattern": map[string]interface{}{"a": "zzz"}, "take": true}, Neg: "operation fails: the location is read-only, the matching fact cannot be removed"},
 		Req{URI: "/loc/nowhere", Params: map[string]interface{}{"location": "plain"}, Neg: "unknown URI"},
 		Req{URI: "/loc/rules/list", RawURI: 5.0, Params: map[string]interface{}{"location": "plain"}, Neg: "typed-uri:the uri is a number"},
 		Req{URI: "/loc/rules/list", RawURI: map[string]interface{}{"a": "/api/loc/rules/list"}, Params: map[string]interface{}{"location": "plain"}, Neg: "typed-uri:the uri is a map"},
@@ -623,6 +631,16 @@ func main() {
 		for i, q := range hist {
 			if sq, ok := toSys(q); ok {
 				out := drv.SysDo(twin, sq)
+				if take, _ := q.Params["take"].(bool); take && q.URI == "/loc/facts/search" {
+					loc, _ := q.Params["location"].(string)
+					pj, _ := json.Marshal(q.Params["pattern"])
+					inh, _ := q.Params["inherited"].(bool)
+					if srs, err := twin.SearchFacts(drv.Ctx(), loc, string(pj), inh); err == nil {
+						for _, f := range srs.Found {
+							twin.RemFact(drv.Ctx(), loc, f.Id)
+						}
+					}
+				}
 				r.Count("compared_with_direct_system_call", 1)
 				if same, want := sameAsSys(q, results["direct"][i], out); !same {
 					r.Violate("", fmt.Sprintf("%s through the service does not return what the direct System call returns (%s)", q.URI, want), rep.J{"request": q, "service_response": results["direct"][i], "system_result": out, "history": hist[:i+1]})
@@ -713,6 +731,12 @@ func main() {
 				continue
 			}
 			eng := newEngine()
+			if q.Prep == "readonly-with-fact" {
+				eng.sys.AddFact(drv.Ctx(), "plain", "t1", `{"a":"zzz"}`)
+				if l, err := eng.sys.GetLocation(drv.Ctx(), "plain"); err == nil {
+					l.SetReadOnly(drv.Ctx(), true)
+				}
+			}
 			got := enc.do(eng, q)
 			eng.srv.Close()
 			r.Case(true, fmt.Sprint("neg", ni, enc.name))
